@@ -91,7 +91,7 @@ ERR_RE = re.compile(r"^<stdin>:(\d+): error: (.*)$")
 
 RULES = ["RAssignConst", "RAssignType", "RVarInitConst", "RArgs", "RNotCallable", "RUndefined", "RAttr",
          "ROperator", "RCond", "RBranches", "RReturn", "RRecordArgs", "RArray", "RIndex", "RRedefined",
-         "RSeq", "RUnknownType", "RMatch", "RException"]
+         "RSeq", "RUnknownType", "RMatch", "RException", "RForIn"]
 
 # diagnostic text -> rule (front/typecheck.c, front/tcmatch.c, front/tcheckarr.c)
 CLASSES = [
@@ -115,6 +115,7 @@ CLASSES = [
     (16, re.compile(r"^cannot find record or enum")),
     (17, re.compile(r"^match expression does not cover")),
     (18, re.compile(r"^unknown exception")),
+    (19, re.compile(r"^for in loop expression|^expected range (from|to) of type int")),
 ]
 # param_expr_cmp prints these before the caller names the offence
 PRELUDE = re.compile(r"^expected param |^passing \S+ expression to variable param")
